@@ -16,6 +16,8 @@ if [ $# -eq 0 ]; then
   [ "$rccat" -ne 0 ] && exit "$rccat"
   /venv/bin/python "$here/tools/py2v_sum/main.py" --repo "${BIOM_REPO:-/repo}" --out "$here"; rcsum=$?   # summary mode (tools/regen_sum.sh)
   [ "$rcsum" -ne 0 ] && exit "$rcsum"
+  /venv/bin/python "$here/tools/py2v_tsv/main.py" --repo "${BIOM_REPO:-/repo}" --out "$here"; rctsv=$?   # TSV mode (tools/regen_tsv.sh)
+  [ "$rctsv" -ne 0 ] && exit "$rctsv"
   [ "$rc1" -ne 0 ] && exit "$rc1"
   [ "$rc2" -ne 0 ] && exit "$rc2"
   exit "$rc3"
